@@ -37,15 +37,26 @@ pub fn in_language(mt: &str, toks: &[Tok]) -> bool {
     toks.iter().all(|t| kinds_of(&t.tag).iter().any(|k| field_parse_ok(k, &t.content) == Some(true)))
 }
 
-pub enum Obs { Rejected(String), Accepted { out: Vec<Tok> }, Panic(String) }
+pub enum Obs { Rejected(String), Accepted { out: Vec<Tok>, absorbed: Option<String> }, Panic(String) }
+
+/// A string leaf of the parsed message with a line that starts like a field (`:NN[A]:`): the tokeniser would
+/// have made that line a field of its own, so a field has been absorbed into another field's content.
+fn absorbed_marker(v: &Value) -> Option<String> {
+    match v {
+        Value::String(s) => s.split('\n').find_map(|l| tok::is_tag_start(l).map(|(t, _)| t.to_string())),
+        Value::Array(a) => a.iter().find_map(absorbed_marker),
+        Value::Object(o) => o.values().find_map(absorbed_marker),
+        _ => None,
+    }
+}
 
 pub fn observe(mt: &str, toks: &[Tok]) -> Obs {
     let full = spec::envelope(mt, &tok::render_lf(toks));
     with_mt!(mt, T => {
-        match guarded(|| SwiftParser::parse::<T>(&full).map(|p| p.fields.to_mt_string())) {
+        match guarded(|| SwiftParser::parse::<T>(&full).map(|p| (p.fields.to_mt_string(), serde_json::to_value(&p.fields).ok().as_ref().and_then(absorbed_marker)))) {
             Err(loc) => Obs::Panic(loc),
             Ok(Err(e)) => Obs::Rejected(format!("{e}")),
-            Ok(Ok(s)) => Obs::Accepted { out: tok::tokenise(&s) },
+            Ok(Ok((s, absorbed))) => Obs::Accepted { out: tok::tokenise(&s), absorbed },
         }
     }, else => Obs::Rejected("unknown type".into()))
 }
@@ -117,7 +128,11 @@ pub fn judge(mt: &str, m: &Mutant, order: u64, a: &mut Collector, base_text: &st
         // panics belong to C07 (totality); a rejected in-language mutant belongs to C03 (acceptance)
         Obs::Panic(_loc) => ("panic", inl),
         Obs::Rejected(_e) => ("rejected", inl),
-        Obs::Accepted { out } => {
+        Obs::Accepted { out, absorbed } => {
+            if let Some(t) = absorbed {
+                a.add(format!("C01/MT{mt}/absorbed/{t}:{}", m.kind.clause()), order, || format!("accepted; a content string of the parsed message holds a line that starts with the field marker of {t}"), || json!({"mt": mt, "mutation": m.desc, "block4": tok::render_lf(&m.toks)}));
+                return ("accepted-lossy", inl);
+            }
             match first_loss(&m.toks, &out) {
                 None => {
                     // a text the layout does not allow but that is accepted *and fully reproduced* loses
@@ -207,7 +222,7 @@ pub fn replay(v: &Value) -> i32 {
     let toks = tok::tokenise(case["block4"].as_str().unwrap_or(""));
     let mut obs = vec![];
     for _ in 0..2 {
-        obs.push(match observe(mt, &toks) { Obs::Panic(l) => format!("panic@{l}"), Obs::Rejected(e) => format!("Err: {e}"), Obs::Accepted { out } => format!("Ok -> {:?}", tok::render_lf(&out)) });
+        obs.push(match observe(mt, &toks) { Obs::Panic(l) => format!("panic@{l}"), Obs::Rejected(e) => format!("Err: {e}"), Obs::Accepted { out, .. } => format!("Ok -> {:?}", tok::render_lf(&out)) });
     }
     if obs[0] != obs[1] { eprintln!("MACHINERY: replay diverged"); return 2; }
     println!("input:\n{}\nobserved: {}\nin layout language: {}", tok::render_lf(&toks), obs[0], in_language(mt, &toks));
